@@ -35,6 +35,21 @@ def suspend_part(ctx):
                 for rep in range(3 if ctx.quick else 8):
                     items.append((p, {"seed": rng.randrange(1 << 30), "max_inv": 16, "api_latency": lat,
                                       "strategy": "pct" if rep % 2 else "random"}))
+    # slow-holder schedules: for every lock the SDK creates, the thread holding it is descheduled (passed over while anybody else can
+    # run; stalled for at most 0.5 virtual seconds in total) - lock-order inversions, done-callbacks running inline in the holder
+    # and waiters piling up behind a long critical section are reached; a hang found this way is a real deadlock
+    from harness import detsched as ds
+    from harness.driver import Execution
+    two_timed = lambda d: {"nodes": [{"k": "par", "branches": [[{"k": "wait", "s": 1}],   # noqa: E731
+                                                            [{"k": "step", "dur": d}, {"k": "wait", "s": 1}, {"k": "step"}]]}, {"k": "step"}]}
+    Execution(two_timed(1.0), {"seed": 1, "max_inv": 8}).run()
+    sites = sorted(ds.LOCK_SITES)
+    ctx.notes["lock_sites"] = sites
+    for site in sites:
+        for d in (0.9, 1.0, 1.1):
+            for rep in range(6 if ctx.quick else 24):
+                items.append((two_timed(d), {"seed": rng.randrange(1 << 30), "max_inv": 8, "api_latency": 0.0, "batcher": {"time": 0.0},
+                                             "slow_holder": site, "strategy": "pct" if rep % 2 else "random"}))
     execs = run_campaign(ctx, items)
     ctx.notes["conc_executions"] = len(execs)
     for e in execs:
